@@ -147,7 +147,7 @@ def expand(chunk):
     if name == "@selectables":
         for d in fp.CTX:
             for kind in ("table", "subquery", "setop", "aliased_query"):
-                for pos in ("from", "join", "where_in", "select_item", "cmp_operand"):
+                for pos in ("from", "join", "where_in", "select_item", "cmp_operand", "update_from", "update_join", "insert_select_from", "delete_in_from"):
                     yield {"d": d, "sel": kind, "pos": pos}
         return
     for d in fp.CTX:
@@ -225,6 +225,14 @@ def run_selectable(case, res):
             return Q.from_(s).select(T().k if kind == "table" else "*")
         if pos == "join":
             return Q.from_(T()).join(s).on(T().id == s.a).select(T().k)
+        if pos == "update_from":
+            return Q.update(T()).from_(s).set(T().k, 1).where(T().id == 1)
+        if pos == "update_join":
+            return Q.update(T()).join(s).on(T().id == s.a).set(T().k, 1)
+        if pos == "insert_select_from":
+            return Q.into(T()).columns("k").from_(s).select("a")
+        if pos == "delete_in_from":
+            return Q.from_(T()).delete().where(T().k.isin(Q.from_(s).select("a")))
         if kind in ("table", "aliased_query"):
             return None
         if pos == "where_in":
@@ -248,7 +256,7 @@ def run_selectable(case, res):
         n = len(alias_positions(toks))
         # qualifiers of fields of the source also carry the alias: count only tokens not followed by '.'
         defs = [i for i in alias_positions(toks) if not (i + 1 < len(toks) and toks[i + 1].kind == "OP" and toks[i + 1].text == ".")]
-        want = 1 if pos in ("from", "join", "select_item") else 0
+        want = 1 if pos in ("from", "join", "select_item", "update_from", "update_join", "insert_select_from", "delete_in_from") else 0
         if kind == "aliased_query":
             want = None  # a CTE reference renders its name, not an alias
         if want is not None and len(defs) != want:
